@@ -26,6 +26,7 @@ STRUCTS = {
     's_dd':  (16, 8, [('double', 0), ('double', 8)]),
     's_lc':  (16, 8, [('long', 0), ('char', 8)]),
     's_dc':  (16, 8, [('double', 0), ('char', 8)]),
+    's_L':   (16, 16, [('ldouble', 0)]),                       # class X87, X87UP: memory as an argument, %st(0) as a return value
     's_l3':  (24, 8, [('long', 0), ('long', 8), ('long', 16)]),
     's_d3':  (24, 8, [('double', 0), ('double', 8), ('double', 16)]),
 }
@@ -44,8 +45,8 @@ def classify(t):
             return ['X87']
         return ['INTEGER']
     size, align, members = STRUCTS[t]
-    if size > 16:
-        return ['MEMORY']
+    if size > 16 or any(mt == 'ldouble' for mt, off in members):
+        return ['MEMORY']      # psABI 3.2.3 (5): X87/X87UP eightbytes of an argument go to memory
     n = (size + 7) // 8
     cls = [None] * n
     for mt, off in members:
@@ -80,7 +81,7 @@ def assign_args(types, hidden_ret=False, ld_align=16):
     off = 0
     for i in mem:
         t = types[i]
-        al = ld_align if t == 'ldouble' else 8
+        al = ld_align if (t == 'ldouble' or (t in STRUCTS and STRUCTS[t][1] > 8)) else 8
         off = (off + al - 1) // al * al
         locs[i] = ('mem', off)
         off += (size_of(t) + 7) // 8 * 8
@@ -154,7 +155,7 @@ def bytes_of(t, n=8):
         return bytes_of(t[2], n)
     if k == 'bits':
         return bytes_of(t[2], n)
-    if k in ('init', 'xinit', 'r', 'clobber', 'ret', 'retx'):
+    if k in ('init', 'xinit', 'r', 'clobber', 'ret', 'retx', 'retst'):
         return [('byte', t, i) for i in range(n)]
     if k == 'zx':
         _, wf, wt, x = t
